@@ -65,6 +65,7 @@ type FleetScript struct {
 	WithErrors  bool          // return instances AND an Errors entry (the documented partial-error case)
 	PageSize    int           // page size of DescribeInstanceStatusPages
 	NilActivity bool
+	Empty       bool // answer with neither instances nor errors
 }
 
 // Cloud is the simulated AWS account.
@@ -330,6 +331,9 @@ func (s *ASGService) AttachInstances(in *autoscaling.AttachInstancesInput) (*aut
 	if !ok {
 		return fail("AutoScalingGroup name not found - null")
 	}
+	if len(ids) == 0 {
+		return fail("1 validation error detected: Value at 'instanceIds' failed to satisfy constraint: Member must have length greater than or equal to 1")
+	}
 	if len(ids) > 20 {
 		return fail(fmt.Sprintf("1 validation error detected: Value at 'instanceIds' failed to satisfy constraint: Member must have length less than or equal to 20 (got %d)", len(ids)))
 	}
@@ -436,6 +440,10 @@ func (s *EC2Service) CreateFleet(in *ec2.CreateFleetInput) (*ec2.CreateFleetOutp
 	if c.Fleet.FailMessage != "" {
 		out.Errors = []*ec2.CreateFleetError{{ErrorCode: awsapi.String("InsufficientInstanceCapacity"), ErrorMessage: awsapi.String(c.Fleet.FailMessage)}}
 		ev.Note = "fleet returned errors only"
+		return out, nil
+	}
+	if c.Fleet.Empty {
+		ev.Note = "fleet returned neither instances nor errors"
 		return out, nil
 	}
 	if fr.Total <= 0 {
